@@ -268,14 +268,14 @@ Proof.
   unfold route_monitoring. destruct (sm_peers s !! p) as [pe|] eqn:E.
   2:{ unfold invalid, with_metrics. split; [auto|]. split; [cbn; auto|]. cbn. discriminate. }
   destruct u as [u|]; [|apply invalid_ids_ok]. cbv zeta.
-  set (ps1 := match is_eor u with
+  set (ps1 := match eor_in (sm_phase s) u with
               | Some f => <[p := MkPeer (pe_eor pe) (pe_pending pe ∖ {[f]}) (pe_id pe)]> (sm_peers s)
               | None => sm_peers s end).
   assert (H1 : forall i, ids_tbl ps1 i -> ids_tbl (sm_peers s) i).
-  { subst ps1. destruct (is_eor u); [|auto]. intros i. eapply ids_tbl_insert_same; [exact E|reflexivity]. }
+  { subst ps1. destruct (eor_in (sm_phase s) u); [|auto]. intros i. eapply ids_tbl_insert_same; [exact E|reflexivity]. }
   set (pe1 := match ps1 !! p with Some x => x | None => pe end).
   assert (Hp1 : exists y, ps1 !! p = Some y /\ pe_id y = pe_id pe).
-  { subst ps1. destruct (is_eor u); [rewrite lookup_insert; eauto|eauto]. }
+  { subst ps1. destruct (eor_in (sm_phase s) u); [rewrite lookup_insert; eauto|eauto]. }
   assert (Hpe1 : pe_id pe1 = pe_id pe).
   { subst pe1. destruct Hp1 as (y & -> & Hy). exact Hy. }
   set (ps2 := match first_ann_fam u with
@@ -292,8 +292,9 @@ Proof.
                  (add_routes (set_gauges (set_gauges (sm_metrics s) ps1) ps2) (n_ann u) (n_wd u)),
                  OUpdate (UBulk (payloads_of (pe_id pe) u)))).
   { split; [auto|]. split; [cbn; auto|]. cbn [snd]. intros u0 i [= <-]. apply Hout. }
-  destruct (sm_phase s) eqn:Ep; try exact Hr.
-  destruct (match is_eor u with Some _ => all_pending_empty ps1 | None => false end); [|exact Hr].
+  destruct (sm_phase s) eqn:Ep; try (rewrite <- Ep; exact Hr).
+  rewrite <- Ep.
+  destruct (match eor_in (sm_phase s) u with Some _ => all_pending_empty ps1 | None => false end); [|exact Hr].
   split; [auto|]. split; [cbn; auto|]. cbn. discriminate.
 Qed.
 
